@@ -1,5 +1,6 @@
 /- C05 — first engine facts; the driver invariant (G2) is added below as it lands. -/
 import Stab.Lemmas.EngineBasic
+import Stab.Lemmas.EngineClaim
 namespace Stab.Props.C05
 open Stab Stab.Engine
 /-- A workflow with a TERMINAL stage is never reported SUCCEEDED by `_determine_final_status`; it is TERMINAL. -/
@@ -62,5 +63,21 @@ theorem finished_has_no_running_stage (c : Cfg) (s : State) (id retry : Nat) (st
   · intro hns i hi hrun
     simp only [hCompleteWorkflow, hnc, hf, hlegal]
     simp [hns, hi, hrun]
+
+/-- **A workflow that has reached a final status starts no further stage** (F37 repair): a StartStage arriving
+    afterwards commits nothing on a NOT_STARTED stage … -/
+theorem startStage_after_finish_is_inert (c : Cfg) (s : State) (id i r : Nat)
+    (hf : s.wfStatus.isComplete = true) (hn : (s.stage i).status = .notStarted) : hStartStage c s id i r = [] := by
+  simp [hStartStage, hf, hn]
+
+/-- … hence no handler of any message ever turns a NOT_STARTED stage RUNNING once the workflow is final: the state
+    "finished workflow with a stage RUNNING that nobody will complete" cannot be entered by a late StartStage. -/
+theorem no_claim_after_finish (c : Cfg) (s : State) (row : Row) (i : Nat) (e : Eff)
+    (hf : s.wfStatus.isComplete = true) (he : e ∈ (handle c s row).1.flatten) : ¬ Claims s i e := by
+  intro hcl
+  obtain ⟨r, hm, _⟩ := only_startStage_claims c s row i e he hcl
+  obtain ⟨new, rfl, hns, _⟩ := hcl
+  have : hStartStage c s row.id i r = [] := startStage_after_finish_is_inert c s row.id i r hf hns
+  simp [handle, hm, this] at he
 
 end Stab.Props.C05
